@@ -1098,9 +1098,9 @@ func init() {
 			}
 			return r.Ops["tick:ok"] >= 3 && r.OKOps() >= 10 && rare >= 4
 		},
-		Rule: "tape-generated legal sequences of AppendEntry (current/future/retroactive/same-block overwrite), ModifyEntry, GetEntry, PutEntry (drop reference / cancel future version), DelEntry (now/future) over 1-2 fixation stores sharing one KV store and 1-3 indices, interleaved with block advances (one Tick per block; 1..stale+2 blocks or up to the next due event per step); legality decided by the reference model; stale period 2..12 blocks per run; operations documented as refused (append on/beyond a scheduled delete, delete of unknown/deleted/already-scheduled entry) are generated and must return an error and change nothing; faults: transactions of 1-3 operations on a discarded cache context. After every operation and every block all lookups over a grid of blocks are compared with the model. Non-trivial = at least 3 tick steps, 10 successful operations and 4 different rare situations (future matured, future delete fired, version became stale, append on deleted index, last reference put, future cancelled, same-block overwrite, ...); distinct = distinct (op,outcome,fault) sequence hash",
-		Real:     []string{"x/fixationstore/types.FixationStore", "x/timerstore/types.TimerStore", "cosmos-sdk IAVL/cachekv store", "proto codec"},
-		Stubbed:  []string{"block clock (simulated, one Tick per block like the timerstore keeper's BeginBlock)", "fixation users (tape-driven legal callers)", "stale period parameter (per-run constant)"},
-		Assume:   []string{"block heights are never skipped (the timer store is ticked on every block)", "legal API use as documented in fixationstore.go: PutEntry only for an outstanding GetEntry reference or to cancel a future version; AppendEntry not older than the latest version, strictly newer than a deleted one; Modify/ReadEntry only on stored versions", "the stale period does not change during a run"},
+		Rule:    "tape-generated legal sequences of AppendEntry (current/future/retroactive/same-block overwrite), ModifyEntry, GetEntry, PutEntry (drop reference / cancel future version), DelEntry (now/future) over 1-2 fixation stores sharing one KV store and 1-3 indices, interleaved with block advances (one Tick per block; 1..stale+2 blocks or up to the next due event per step); legality decided by the reference model; stale period 2..12 blocks per run; operations documented as refused (append on/beyond a scheduled delete, delete of unknown/deleted/already-scheduled entry) are generated and must return an error and change nothing; faults: transactions of 1-3 operations on a discarded cache context (others on a committed cache context or directly). Two legal situations that currently break the store (DelEntry now on a version of the current block; PutEntry cancelling the future version that holds a scheduled delete) are generated in 1 run out of 4. After every operation and every block all lookups over a grid of blocks are compared with the model. Non-trivial = at least 3 tick steps, 10 successful operations and 4 different rare situations (future matured, future delete fired, version became stale, append on deleted index, last reference put, future cancelled, same-block overwrite, ...); distinct = distinct (op,outcome,fault) sequence hash",
+		Real:    []string{"x/fixationstore/types.FixationStore", "x/timerstore/types.TimerStore", "cosmos-sdk IAVL/cachekv store", "proto codec"},
+		Stubbed: []string{"block clock (simulated, one Tick per block like the timerstore keeper's BeginBlock)", "fixation users (tape-driven legal callers)", "stale period parameter (per-run constant)"},
+		Assume:  []string{"block heights are never skipped (the timer store is ticked on every block)", "legal API use as documented in fixationstore.go: PutEntry only for an outstanding GetEntry reference or to cancel a future version; AppendEntry not older than the latest version, strictly newer than a deleted one; Modify/ReadEntry only on stored versions", "the stale period does not change during a run"},
 	})
 }
